@@ -215,6 +215,9 @@ def check_intrusive_list(ctx, unit, cls="frg::_list::intrusive_list"):
                             bad.append("a path does not reset %s of the removed element" % need.split(":")[0].split(".")[1])
                 ctx.inst("H.list-erase", "%s::%s (removes an element itself)" % (cls, name_), not bad and n_real > 0, f.loc,
                          "; ".join(sorted(set(bad))) if bad else "%d removing paths examined" % n_real, f)
+        ctx.rule("R.no-use-after-move", "an owner pointer (list end, hook link, parameter) that was passed to std::move is not read "
+                 "again on that path before it is assigned a new value", 2)
+        check_no_use_after_move(ctx, "R.no-use-after-move", [f for fl_ in fns.values() for f in fl_])
         for f in fns.get("splice", []):
             oth = [p for p in f.params() if p.get("rt") == cls]
             if not oth:
@@ -247,6 +250,52 @@ def check_intrusive_list(ctx, unit, cls="frg::_list::intrusive_list"):
                     bad.append("a path leaves the source list non-empty (writes %s)" % sorted(s))
             ctx.inst("H.list-splice", "%s::splice" % cls, not bad and len(sets) >= 2, f.loc,
                      "; ".join(sorted(set(bad))) if bad else "%d paths examined" % len(sets), f)
+
+
+def check_no_use_after_move(ctx, rule, fns):
+    """An owner pointer that was handed on with std::move holds an unspecified (for unique-style owners: null) value:
+    reading the same place again on that path before it is assigned reads the moved-from owner.  (Invisible with raw
+    pointers, where std::move copies.)  Per-path typestate over places, a place being the canonical text of the moved
+    expression; the store `p = ...` revives it."""
+    for f in fns:
+        moved_args = {}
+        for n in f.events():
+            if n.kind == "CallExpr" and n.callee and n.callee["uq"] == "std::move" and n.args:
+                a = n.args[0].strip()
+                if a.kind in ("MemberExpr", "DeclRefExpr"):
+                    moved_args[n.id] = (canon(a), {x.id for x in n.args[0].walk()})
+        if not moved_args:
+            continue
+        bad = []
+        lhs_ids = set()
+        for n in f.all_nodes():
+            if n.kind == "BinaryOperator" and n.op == "=":
+                for x in n.children[0].walk():
+                    if x.strip().id == n.children[0].strip().id:
+                        lhs_ids.add(x.id)
+                lhs_ids.add(n.children[0].strip().id)
+        own_arg_ids = set()
+        for _k, (_t, ids) in moved_args.items():
+            own_arg_ids |= ids
+
+        def transfer(n, st, f=f):
+            if n.id in moved_args:
+                return [st | {moved_args[n.id][0]}]
+            if n.kind == "BinaryOperator" and n.op == "=":
+                t = canon(n.children[0].strip())
+                if t in st:
+                    return [st - {t}]
+            if st and n.kind in ("MemberExpr", "DeclRefExpr") and n.id not in lhs_ids and n.id not in own_arg_ids:
+                t = canon(n)
+                if t in st:
+                    par = f.parent(n)
+                    if not (par is not None and par.kind == "MemberExpr" and canon(par) in st):
+                        bad.append("%s is read at %s after it was moved from (std::move) on the same path: for an owner pointer whose "
+                                   "moved-from state is null this dereferences null" % (t.split("#")[0], n.loc))
+            return [st]
+        flow.run(f, [frozenset()], transfer, None, limit=200000)
+        ctx.inst(rule, f.sig, not bad, f.loc, "; ".join(sorted(set(bad))[:2]) if bad else
+                 "%d std::move site(s); no moved-from place is read before it is assigned again" % len(moved_args), f)
 
 
 # ---- read of a link that was just cleared / use of a value derived through a pointer that has moved ------
